@@ -229,6 +229,17 @@ pub fn compare_stream(data: &[u8], st: Option<&mut Stats>) -> Result<(), (String
     if real.ev != r.ev {
         return Err(("c02:events".into(), first_diff(&real.ev, &r.ev)));
     }
+    // the 7-bit-only accumulator sees the same machine on 7-bit input
+    if data.iter().all(|b| *b < 0x80) {
+        let mut p = anstyle_parse::Parser::<anstyle_parse::AsciiParser>::new();
+        let mut rec = Recorder::default();
+        for &b in data {
+            p.advance(&mut rec, b);
+        }
+        if rec.ev != r.ev {
+            return Err(("c02:ascii-accumulator".into(), format!("Parser<AsciiParser>: {}", first_diff(&rec.ev, &r.ev))));
+        }
+    }
     clone_points(data)
 }
 
@@ -381,11 +392,11 @@ pub fn run(cfg: &Cfg) -> Stats {
         if cfg.tier != Tier::Tiny {
             let sizes: [usize; 14] = [255, 256, 257, 4095, 4096, 4097, 5000, 8192, 65534, 65535, 65536, 65537, 70000, 131075];
             for (k, size) in sizes.iter().enumerate() {
-                for kind in 0..4u64 {
-                    if (k as u64 * 4 + kind) % n != shard {
+                for kind in 0..9u64 {
+                    if (k as u64 * 9 + kind) % n != shard {
                         continue;
                     }
-                    let mut rng = Rng::new(cfg.seed, 0xC02_4000_0000 + k as u64 * 4 + kind);
+                    let mut rng = Rng::new(cfg.seed, 0xC02_4000_0000 + k as u64 * 9 + kind);
                     let mut s: Vec<u8> = b"a".to_vec();
                     match kind {
                         0 => {
@@ -409,10 +420,57 @@ pub fn run(cfg: &Cfg) -> Stats {
                             }
                             s.extend_from_slice(b"\x1b\\");
                         }
-                        _ => {
+                        3 => {
                             for _ in 0..(*size).min(20000) {
                                 s.extend_from_slice("\u{e9}x".as_bytes());
                             }
+                        }
+                        4 => {
+                            // one parameter of `size` digits (then a second, ordinary one)
+                            s.extend_from_slice(b"\x1b[");
+                            for j in 0..(*size).min(20000) {
+                                s.push(b'0' + ((j * 7 + k) % 10) as u8);
+                            }
+                            s.extend_from_slice(b";5m");
+                        }
+                        5 => {
+                            // `size` intermediates (after a private marker) in a CSI, an ESC and a DCS sequence
+                            let n_int = (*size).min(20000);
+                            s.extend_from_slice(b"\x1b[?1");
+                            s.extend(std::iter::repeat(b' ').take(n_int));
+                            s.extend_from_slice(b"q\x1b(#");
+                            s.extend(std::iter::repeat(b'!').take(n_int));
+                            s.extend_from_slice(b"B\x1bP1");
+                            s.extend(std::iter::repeat(b'$').take(n_int));
+                            s.extend_from_slice(b"q\x1b\\");
+                        }
+                        6 => {
+                            // `size` parameters
+                            s.extend_from_slice(b"\x1b[1");
+                            for _ in 0..(*size).min(20000) {
+                                s.extend_from_slice(b";1");
+                            }
+                            s.extend_from_slice(b"m\x1bP2");
+                            for _ in 0..(*size).min(20000) {
+                                s.extend_from_slice(b";2");
+                            }
+                            s.extend_from_slice(b"q\x1b\\");
+                        }
+                        7 => {
+                            // `size` sub-parameters
+                            s.extend_from_slice(b"\x1b[4");
+                            for _ in 0..(*size).min(20000) {
+                                s.extend_from_slice(b":3");
+                            }
+                            s.extend_from_slice(b";1m");
+                        }
+                        _ => {
+                            // `size` OSC fields
+                            s.extend_from_slice(b"\x1b]0");
+                            for _ in 0..(*size).min(20000) {
+                                s.extend_from_slice(b";f");
+                            }
+                            s.extend_from_slice(b"\x07");
                         }
                     }
                     s.extend_from_slice(b"b\x1b]0;title\x07c\x1b[1;2md\x1bP0q#\x1b\\e");
